@@ -350,7 +350,9 @@ impl Engine {
     // --------------------------------------------------------------------------------------------
 
     fn garbage(&self, k: u8) -> String {
-        match k % 6 {
+        match k % 8 {
+            6 => self.w.setup.native_prefix.clone(),
+            7 => self.w.setup.proto_prefix.clone(),
             0 => String::new(),
             1 => "not-an-address".into(),
             2 => self.a.third_prefix_addr.clone(),
@@ -803,6 +805,8 @@ impl Engine {
             250 => self.m.cfg.staker.clone(),
             251 => self.garbage(3),
             252 => self.a.users[0].0.clone(),
+            253 => self.garbage(6),
+            254 => self.garbage(7),
             100..=120 => self.a.users[(i - 100) as usize % self.n_users()].1.to_uppercase(),
             _ => self.a.users[i as usize % self.n_users()].1.clone(),
         });
